@@ -1,4 +1,4 @@
 SPECIFICATION Spec
-CONSTANTS FullLimit = 7
+CONSTANTS MaxLen = 4
 INVARIANTS Emit
 CHECK_DEADLOCK FALSE
